@@ -116,12 +116,6 @@ func vContractFiller() BarFiller {
 	})
 }
 
-func vWCFlags(name string) int {
-	f := vInt(name)
-	vAssume(f == 0 || f == decor.DindentRight || f == decor.DextraSpace || f == decor.DindentRight|decor.DextraSpace)
-	return f
-}
-
 // vDecorCalls counts the calls of every decorator of the row harness: a decorator has to be called in every
 // draw, shown or not (a width-synchronised one that is skipped stalls its whole column, see decor.Decorator).
 var vDecorCalls [4]int
